@@ -19,7 +19,7 @@ Require Import Floats.SpecFloat.
 Require Import Reals List ZArith Bool.
 From Flocq Require Import Core BinarySingleNaN.
 From Dasp Require Import Base.Res Base.Float Signal.Converter Signal.ConvNumR Signal.ConvNumF
-  Signal.ConverterProofs Signal.ConverterIEEE Signal.ConverterExamples.
+  Signal.ConverterProofs Signal.ConverterIEEE Signal.ConverterDyadic Signal.ConverterExamples.
 Import ListNotations.
 Open Scope R_scope.
 
@@ -137,6 +137,18 @@ Theorem c08_count : forall (s : source fmt_R) (i : interp fmt_R) (fuel : nat) (r
 Proof. exact count_const. Qed.
 Print Assumptions c08_count.
 
+(* MulHz (mul_hz): the control signal's value is set as the ratio before each output, so n outputs
+   of a MulHz whose control signal still holds n values are exactly [run] over those values - the
+   theorems above apply with rs = the control values (any arithmetic, any sample format) *)
+Theorem c08_mul_hz : forall (N : Num) (Fm : Fmt N) (fuel n : nat) (m : mulhz Fm), (n <= length (ctl m))%nat ->
+  run_mul fuel n m =
+  match run fuel (firstn n (ctl m)) (mconv m) with
+  | Diverges => Diverges
+  | Done (os, c') => Done (os, {| mconv := c'; ctl := skipn n (ctl m) |})
+  end.
+Proof. exact @run_mul_run. Qed.
+Print Assumptions c08_mul_hz.
+
 (* IEEE binary64: below 2^53 the accumulator update v - 1.0 is exact ... *)
 Theorem c08_sub_exact : forall v : F64.t, is_finite v = true -> 1 <= B2R v < bpow radix2 53 ->
   is_finite (F64.sub v F64.one) = true /\ B2R (F64.sub v F64.one) = B2R v - 1.
@@ -155,6 +167,23 @@ Theorem c08_loop_closed_form : forall (Fm : Fmt NF) (fuel : nat) (c : conv Fm),
     ratio c' = ratio c.
 Proof. exact @loop_closed_form. Qed.
 Print Assumptions c08_loop_closed_form.
+
+(* dyadic ratios: with accumulator a/2^j and ratio b/2^j (a + b < 2^53), one whole `next` in
+   binary64 pulls floor(v) frames and leaves exactly (v - floor v) + ratio, again a multiple of
+   2^-j: by induction the binary64 accumulator of a dyadic-ratio run equals the real one for as
+   long as n * ratio * 2^j < 2^53, so the real-arithmetic theorems transfer literally *)
+Theorem c08_dyadic_exact : forall (Fm : Fmt NF) (fuel : nat) (c : conv Fm) (j a b : Z),
+  is_finite (value c) = true -> is_finite (ratio c) = true -> (0 <= j <= 1074)%Z ->
+  dyadic j a (B2R (value c)) -> dyadic j b (B2R (ratio c)) -> (0 <= a)%Z -> (0 <= b)%Z -> (a + b < 2 ^ 53)%Z ->
+  (Zfloor (B2R (value c)) < Z.of_nat fuel)%Z ->
+  exists out c', next fuel c = Done (out, c') /\
+    is_finite (value c') = true /\
+    B2R (value c') = B2R (value c) - IZR (Zfloor (B2R (value c))) + B2R (ratio c) /\
+    dyadic j (a mod 2 ^ j + b) (B2R (value c')) /\
+    pulls (src c') = (pulls (src c) + Z.to_nat (Zfloor (B2R (value c))))%nat /\
+    ratio c' = ratio c.
+Proof. exact @next_dyadic_exact. Qed.
+Print Assumptions c08_dyadic_exact.
 
 (* K3 (known finding): the property quantifies over every ratio > 0, but with ratio 1e17 the
    binary64 accumulator reaches 1e17 after the first output, 1e17 - 1.0 = 1e17, and the pull loop
